@@ -135,7 +135,7 @@ def subst_word(text, frm, to):
 
 class Contract:
     def __init__(self, ret='res', requires=(), ensures=(), loops=(), prologue='', external_body=False,
-                 tag=None, decreases=None, opens=(), no_unwind=False, body_subst=(), assume_spec=False, inserts=()):
+                 tag=None, decreases=None, opens=(), no_unwind=False, body_subst=(), assume_spec=False, inserts=(), closures=()):
         self.ret = ret
         self.requires = list(requires)
         self.ensures = list(ensures)      # strings; each becomes one tagged obligation
@@ -146,6 +146,7 @@ class Contract:
         self.decreases = decreases
         self.body_subst = list(body_subst)  # recorded, exceptional textual rewrites (N-rules)
         self.inserts = list(inserts)        # (anchor text, ghost text): ghost text inserted before the anchor (D2)
+        self.closures = list(closures)      # (closure header as written e.g. '|p|', typed header with ghost ensures, let-prefix): D2 on a closure
 
 
 def fn_header_parts(header):
@@ -294,6 +295,20 @@ def rewrite_asserts(body):
     return ''.join(out), n
 
 
+def annotate_closure(body, hdr, newhdr, prefix=''):
+    """D2 on a closure: `|p| EXPR` (the only closure with that header in the body) becomes `NEWHDR { PREFIX EXPR }`;
+    EXPR is copied verbatim and extends to the end of the enclosing call argument"""
+    rx = re.compile(r'\s*'.join(re.escape(tok) for tok in re.findall(r'\w+|[^\w\s]', hdr)))
+    ms = list(rx.finditer(body))
+    if len(ms) != 1:
+        raise LookupError('anchor-lost: closure header %r occurs %d times' % (hdr, len(ms)))
+    m = ms[0]
+    sc = Scanner(body)
+    end = sc.skip_code_to(m.end(), ',;')       # stops at ',' ';' at depth 0 or at the closing bracket of the enclosing call
+    expr = body[m.end():end].strip()
+    return body[:m.start()] + newhdr + ' { ' + prefix + ' ' + expr + ' }' + body[end:]
+
+
 class Selection:
     """one function (or whole item) selected for a unit"""
 
@@ -362,6 +377,8 @@ def render_fn(fnitem, mode, contract, tparams=('T',), scalar='R', indent='    ')
         if len(rx.findall(body)) != 1:
             raise LookupError('anchor-lost: body_subst anchor %r' % a)
         body = rx.sub(lambda _m: b, body, count=1)
+    for (hdr, newhdr, prefix) in c.closures:
+        body = annotate_closure(body, hdr, newhdr, prefix)
     for (anchor, ghost) in c.inserts:
         if body.count(anchor) != 1:
             raise LookupError('anchor-lost: insert anchor %r occurs %d times' % (anchor, body.count(anchor)))
